@@ -56,6 +56,15 @@ func ApplyInclude(ctx context.Context, workingDir string, environment types.Mapp
 		return err
 	}
 
+	// for a nested include workingDir is relative to the parent project: local files are looked up from the
+	// directory the local resource loader is bound to, which is that same directory
+	baseDir := workingDir
+	for _, loader := range options.ResourceLoaders {
+		if local, ok := loader.(localResourceLoader); ok && local.WorkingDir != "" {
+			baseDir = local.WorkingDir
+		}
+	}
+
 	for _, r := range includeConfig {
 		for _, listener := range options.Listeners {
 			listener("include", map[string]any{
@@ -84,7 +93,7 @@ func ApplyInclude(ctx context.Context, workingDir string, environment types.Mapp
 						r.ProjectDirectory = filepath.Dir(path)
 					case !filepath.IsAbs(r.ProjectDirectory):
 						relworkingdir = loader.Dir(r.ProjectDirectory)
-						r.ProjectDirectory = filepath.Join(workingDir, r.ProjectDirectory)
+						r.ProjectDirectory = filepath.Join(baseDir, r.ProjectDirectory)
 
 					default:
 						relworkingdir = r.ProjectDirectory
@@ -119,7 +128,7 @@ func ApplyInclude(ctx context.Context, workingDir string, environment types.Mapp
 			envFile := []string{}
 			for _, f := range r.EnvFile {
 				if !filepath.IsAbs(f) {
-					f = filepath.Join(workingDir, f)
+					f = filepath.Join(baseDir, f)
 					s, err := os.Stat(f)
 					if err != nil {
 						return err
